@@ -309,14 +309,14 @@ def c03(tier):
             for ns, f in sizes:
                 if t == 7 and 7 * ns > 14:
                     continue
-                if tier != 'quick' and (N == 4 or t == 7) and f not in (1, 4, 7):
+                if tier != 'quick' and ((N == 4 or t == 7) and f not in (1, 4, 7) or (N == 3 and f not in (1, 3, 4, 7))):
                     continue
                 segs = max(ns, 1)
                 for bs, bs2 in ((1, 1), (2, 2), (127, 127), (1, 2), (2, 1), (3, 3), (3, 1)):
                     if bs in (2, 3) and bs > N:
                         continue
                     ebs = min(bs, N)
-                    pats = [()] + [(a,) for a in range(ebs)] + ([(a, b) for a in range(ebs) for b in range(ebs)] if (tier != 'quick' or (segs >= 2 and f == 7)) else [])
+                    pats = [()] + [(a,) for a in range(ebs)] + ([(a, b) for a in range(ebs) for b in range(ebs)] if ((tier != 'quick' and N == 2) or (segs >= 2 and f == 7)) else [])
                     for ak in pats:
                         if bs != bs2 and ak:
                             continue
@@ -551,10 +551,10 @@ def c10(tier):
     seqs = list(HBP_SEQS_QUICK)
     if tier != 'quick':
         import itertools
-        for t in itertools.product('TWGEN', repeat=4):
+        for t in itertools.product('TWGE', repeat=4):
             seqs.append('N' + ''.join(t) + 'T')
     valsets = [(1, 1, 1, 1, 1, 1, 1), (3, 2, 1, 2, 3, 1, 2), (0, 1, 0, 2, 2, 0, 1)] if tier == 'quick' else \
-              [(1, 1, 1, 1, 1, 1, 1), (3, 2, 1, 2, 3, 1, 2), (0, 1, 0, 2, 2, 0, 1), (2, 2, 2, 2, 2, 2, 2), (1, 3, 3, 1, 0, 2, 3), (2, 0, 2, 0, 1, 3, 0)]
+              [(1, 1, 1, 1, 1, 1, 1), (3, 2, 1, 2, 3, 1, 2), (0, 1, 0, 2, 2, 0, 1), (1, 3, 3, 1, 0, 2, 3)]
     # a timer in front of the heartbeat is deleted after part of its time elapsed (TPDO event timer restarted by a trigger,
     # application timer deleted); heartbeat switched on only after event-time writes (the new timer reuses freed ids)
     # long periods at high timer frequencies (period checked in the timer lists), heartbeat chained behind another action of the same tick
@@ -570,7 +570,7 @@ def c10(tier):
                    ('NEPWNTT', (0, 1, 0, 2, 0, 0, 0)), ('NEGEWTGT', (0, 2, 0, 0, 1, 0, 0, 0))):
         out.append(hbp_inst(sq, 0, vals=vs))
     for sq in seqs:
-        for hb0 in ((2,) if tier == 'quick' else (1, 2, 0)):
+        for hb0 in ((2,) if tier == 'quick' else (2, 0)):
             needs = any(c in sq for c in 'WAEICYX')
             for vs in (valsets if needs else [None]):
                 out.append(hbp_inst(sq, hb0, vals=vs))
